@@ -28,6 +28,7 @@ fn install_panic_hook() {
     }));
 }
 
+static ANNOUNCE: std::sync::atomic::AtomicBool = std::sync::atomic::AtomicBool::new(false);
 const OBS_PROPS: &[&str] = &["C01", "C02", "C03", "C16", "C19"];
 const VEC_PROPS: &[&str] = &["C05", "C06", "C07", "C08", "C09", "C10", "C11", "C12", "C13", "C14", "C15", "C17", "C20"];
 
@@ -70,6 +71,8 @@ fn parse_args() -> Args {
             "--jobs" => a.jobs = it.next().unwrap().parse().unwrap(),
             "--no-evidence" => a.evidence = false,
             "--no-kf-retire" => a.kf_retire = false,
+            "--no-big" => vecworld::gen::NO_BIG.store(true, std::sync::atomic::Ordering::Relaxed),
+            "--announce" => ANNOUNCE.store(true, std::sync::atomic::Ordering::Relaxed),
             "--out" => a.out_dir = it.next().unwrap(),
             s if a.cmd == "replay" && a.file.is_none() => a.file = Some(s.to_string()),
             s if a.cmd == "run-case" && !a.prop.is_empty() && a.file.is_none() => a.file = Some(s.to_string()),
@@ -351,8 +354,8 @@ fn main() {
             let first = a.secs.unwrap_or(0); // --secs doubles as the first run index here
             let mut bad = 0;
             for run in first..first + runs {
-                if std::env::var_os("TASKSIM_ANNOUNCE_RUNS").is_some() {
-                    println!("run {run}");
+                if ANNOUNCE.load(std::sync::atomic::Ordering::Relaxed) {
+                    eprintln!("run {run}");
                 }
                 let v = match a.prop.as_str() {
                     p if VEC_PROPS.contains(&p) => {
